@@ -104,13 +104,25 @@ func mutate(rng *rand.Rand, s *S, past []S) {
 			ensureBackend(rng, s, b)
 			s.TCP[t] = T{Backend: b, TLS: rng.Intn(2) == 0}
 		}
-	case 8: // the service of the default backend appears / disappears
-		if s.Default == "" {
+	case 8: // the default service appears, resolves to another (already existing) backend, or disappears
+		var https []string
+		for _, b := range sortedKeys(s.Backends) {
+			if b != s.Default && b != TCPBackPool[0] && b != TCPBackPool[1] {
+				https = append(https, b)
+			}
+		}
+		switch {
+		case len(https) > 0 && rng.Intn(2) == 0:
+			// nothing else changes: only the default backend is another one
+			s.Default = pick(rng, https)
+		case s.Default == "":
 			ensureBackend(rng, s, DefaultName)
 			s.Default = DefaultName
-		} else {
+		default:
+			if s.Default == DefaultName {
+				delete(s.Backends, DefaultName)
+			}
 			s.Default = ""
-			delete(s.Backends, DefaultName)
 		}
 	case 9: // remove a backend (and what points to it)
 		if ks := sortedKeys(s.Backends); len(ks) > 0 {
@@ -136,15 +148,8 @@ func mutate(rng *rand.Rand, s *S, past []S) {
 	}
 }
 
-// fixDefault: the default backend is one fixed service of the controller
-// (--default-backend-service): it is the default backend exactly while its backend exists.
+// fixDefault drops a default backend that does not exist (any more) and the backends nothing refers to.
 func fixDefault(s *S) {
-	s.Normalize(false)
-	if _, ok := s.Backends[DefaultName]; ok {
-		s.Default = DefaultName
-	} else {
-		s.Default = ""
-	}
 	s.Normalize(false)
 }
 
